@@ -456,7 +456,10 @@ def g_isclose(draw, name, order, depth, prefer=None):
         "mul": draw(st.lists(st.sampled_from([1.0, 1.0, 0.625, 1.5, 3.0]), min_size=min(n, 8), max_size=min(n, 8))),
         "add": draw(st.lists(st.sampled_from([0.0, 0.0, 0.0625, -0.75]), min_size=min(n, 8), max_size=min(n, 8))),
     }
-    return {"kind": "reg", "fn": name, "order": order, "form": "func", "recipe": r, "other": other, "kw": kw}
+    case = {"kind": "reg", "fn": name, "order": order, "form": "func", "recipe": r, "other": other, "kw": kw}
+    if "rtol" in kw and "atol" in kw and draw(st.booleans()):
+        case["posargs"] = draw(st.sampled_from(["rtol", "rtol_atol"]))  # torch.isclose(a, b, rtol[, atol]) positionally
+    return case
 
 
 def g_diagonal(draw, name, order, depth, prefer=None):
@@ -483,7 +486,10 @@ def g_diagonal(draw, name, order, depth, prefer=None):
         kw = {"offset": draw(st.sampled_from([1, -1])), "dim1": nd - 2, "dim2": nd - 1}
     elif af == "batchdims":
         kw = {"dim1": 0, "dim2": nd - 1}
-    return {"kind": "reg", "fn": name, "order": order, "form": "func", "recipe": r, "kw": kw, "argform": af}
+    case = {"kind": "reg", "fn": name, "order": order, "form": "func", "recipe": r, "kw": kw, "argform": af}
+    if {"offset", "dim1", "dim2"} <= set(kw) and draw(st.booleans()):
+        case["posargs"] = "offset_dims"  # torch.diagonal(a, offset, dim1, dim2) positionally
+    return case
 
 
 def g_dim(draw, name, order, depth, prefer=None):
@@ -1055,11 +1061,15 @@ def _plan(case):
     if fam == "isclose":
         rtol, atol = kw.get("rtol", 1e-05), kw.get("atol", 1e-08)
 
+        pa = case.get("posargs")
+        pargs = () if not pa else ((kw["rtol"],) if pa == "rtol" else (kw["rtol"], kw["atol"]))
+        kwr = {k_: v_ for k_, v_ in kw.items() if not (pa and (k_ == "rtol" or (k_ == "atol" and pa == "rtol_atol")))}
+
         def lib(op, x):
-            return f(op, x, **kw) if order == "first" else f(x, op, **kw)
+            return f(op, x, *pargs, **kwr) if order == "first" else f(x, op, *pargs, **kwr)
 
         def meth(op, x):
-            return meth_on(op)(op, x, **kw)
+            return meth_on(op)(op, x, *pargs, **kwr)
 
         a, c = (A, Xd) if order == "first" else (Xd, A)
         margin = (a - c).abs() - (atol + rtol * c.abs())
@@ -1081,6 +1091,9 @@ def _plan(case):
     if fam == "diagonal":
         ref = torch.diagonal(A, **kw)
         S = torch.diagonal(Aabs, **kw)
+        if case.get("posargs") == "offset_dims":
+            dargs = (kw["offset"], kw["dim1"], kw["dim2"])
+            return (lambda op, x: f(op, *dargs)), (lambda op, x: meth_on(op)(op, *dargs)), [("value", ref)], dense_norm, [_bound_exact(S, dt, 1, depth, extra)], info
         return (lambda op, x: f(op, **kw)), (lambda op, x: meth_on(op)(op, **kw)), [("value", ref)], dense_norm, [_bound_exact(S, dt, 1, depth, extra)], info
 
     # ---------------------------------------------------------------- dim-argument structure functions
